@@ -23,6 +23,11 @@ TYPES = [
 ]
 
 
+# words the DDL grammar uses that are not reserved: legal, and common, as column names
+SOFT_WORDS = ["key", "index", "value", "type", "name", "comment", "data", "text", "date", "time", "level", "position", "size", "format",
+              "status", "schema", "temporary", "view", "columns", "enforced", "generated", "identity", "start", "increment", "zone"]
+
+
 def type_tree(name, params):
     key = name.replace(" ", "_")
     if not params:
@@ -78,8 +83,13 @@ class Gen:
         tw, tr = self.name("t")
         cols_w, cols_t = [], []
         names = []
+        soft = [w for w in SOFT_WORDS]
+        rng.shuffle(soft)
         for _ in range(rng.randint(1, 8)):
             cw, cr = self.name("c", allow_schema=False)
+            if soft and rng.random() < 0.2:
+                # column names that are also words of the DDL grammar (KEY, INDEX, …) — unquoted, as people write them
+                cw = cr = soft.pop()
             names.append(cw)
             ty, np_ = rng.choice(TYPES)
             params = [rng.choice([0, 0, 1, 3, 10, 255]) for _ in range(np_)]      # a size of 0 is falsy in Python
